@@ -386,6 +386,9 @@ func (repo *GoGitRepo) FetchRefs(remote string, prefixes ...string) (string, err
 		RemoteName: remote,
 		RefSpecs:   refSpecs,
 		Progress:   buf,
+		// only fetch what is asked for: the default is to also create the tags
+		// of the remote that point to fetched (or already known) objects
+		Tags: gogit.NoTags,
 	})
 	if err == gogit.NoErrAlreadyUpToDate {
 		return "already up-to-date", nil
